@@ -257,7 +257,7 @@ class Ref:
 # ------------------------------------------------------------------------------------------------------------
 # comparison of a recorded episode with the reference
 # ------------------------------------------------------------------------------------------------------------
-def compare_record(spec, record, ref, check_payload=True, sup_last_unexecuted=True, obs=None, max_err=8):
+def compare_record(spec, record, ref, check_payload=True, times_only=False, max_err=8):
     """record: summarize_record() dict. Returns list of (signature, detail)."""
     errs = []
 
@@ -286,7 +286,9 @@ def compare_record(spec, record, ref, check_payload=True, sup_last_unexecuted=Tr
                 continue
             exp = ref.consumption(e, K)
             got = list(zip(ms["seq_out"], ms["seq_in"]))
-            if got != exp:
+            if times_only:
+                pass
+            elif got != exp:
                 kind = ("blocking" if e.get("blocking") else e.get("jitter", "LATEST")) + ("+skip" if e.get("skip") else "")
                 err("consumption:" + kind, n, o, "got", got[:24], "expected", exp[:24])
                 continue
